@@ -282,7 +282,7 @@ def path_count_range(fn, pred_block, start=0, stop_blocks=None):
         if b in memo:
             return memo[b]
         memo[b] = None  # cycle guard
-        w = 1 if pred_block(b) else 0
+        w = int(pred_block(b) or 0)      # a predicate, or an integer weight per block
         t = fn.term(b)
         if t[0] == "ret" or (stop_blocks and b in stop_blocks):
             memo[b] = (w, w)
